@@ -1,89 +1,74 @@
 (* Props/C20.v — Front matter is carried verbatim and never leaks into the document: the splitter.
    Only pinned statements.  `split_off_front_matter` is the model of Model/FrontMatter.v (index and
-   slice-check faithful transcription of src/strings.rs, shape-checked by translator item
-   `frontmatter`); `spec_split` is the line-based specification of Spec/FrontMatterSpec.v. *)
+   slice-check faithful transcription of src/strings.rs after the repair `fix: front matter is cut by lines`,
+   shape-checked by translator item `frontmatter`); `spec_split` is the line-based specification of
+   Spec/FrontMatterSpec.v.  Before the repair the full statement was refuted with four witnesses
+   (known_findings F9, F10, F11, C20-a); it is now the theorem C20_split_vs_spec, and the four witnesses are
+   Examples of the specified behaviour. *)
 From Coq Require Import List NArith Bool.
 From V Require Import Base.Bytes Base.Res Model.FrontMatter Spec.FrontMatterSpec Spec.EscapeSpec
-  Proofs.FrontMatterProofs Proofs.FrontMatterSpecProofs.
+  Proofs.FrontMatterSpecProofs Proofs.FrontMatterProofs.
 Import ListNotations.
 From Coq Require Import Strings.String.
 Local Open Scope string_scope.
 Local Open Scope list_scope.
 
-(* what is returned is a split of the (BOM-stripped) input; the front matter is
-   d, line end, body, LF, d, and at most two line ends (the closer's and one blank line) *)
-Theorem C20_split_sound : forall s d fm rest,
-  split_off_front_matter s d = Ok (Some (fm, rest)) ->
-  strip_bom s = fm ++ rest /\
-  exists e0 body tail, (e0 = fm_lf \/ e0 = fm_crlf) /\ blank_tail tail = true /\
-    fm = d ++ e0 ++ body ++ fm_lf ++ d ++ tail.
-Proof. exact split_sound. Qed.
-Print Assumptions C20_split_sound.
+(* FULL STATEMENT: on every Rust str (valid UTF-8) and for every well-formed delimiter (non-empty, no CR / LF)
+   the splitter returns normally and IS the line-based specification: opening line exactly the delimiter and
+   terminated, closed by the FIRST later line that is exactly the delimiter (LF, CR LF or bare CR line endings;
+   the closing line may be the unterminated last line; the front matter may be empty), one following blank line
+   kept with the front matter. *)
+Definition C20_split_vs_spec_full_statement : Prop := split_vs_spec_full_statement.
 
-(* no panic: on valid UTF-8 (every Rust str) none of the five checked slices fails; the result is the
-   check-free reading `core` of the same code *)
-Theorem C20_split_total : forall s d, utf8_valid s = true -> utf8_valid d = true ->
-  split_off_front_matter s d = Ok (core (trim_start_match s fm_bom) d).
-Proof. exact split_total. Qed.
+Theorem C20_split_vs_spec : forall s d, utf8_valid s = true -> delim_ok d = true ->
+  split_off_front_matter s d = Ok (spec_split s d).
+Proof. exact split_vs_spec. Qed.
+Print Assumptions C20_split_vs_spec.
+
+(* the same without the UTF-8 hypothesis: on arbitrary bytes whatever is returned is what the specification
+   says, and the only other outcome is a Panic of a char-boundary check on an input that is not UTF-8 *)
+Theorem C20_split_ok_is_spec : forall s d r, delim_ok d = true ->
+  split_off_front_matter s d = Ok r -> r = spec_split s d.
+Proof. exact split_ok_is_spec. Qed.
+Print Assumptions C20_split_ok_is_spec.
+
+(* no panic, no fuel exhaustion: on valid UTF-8 (every Rust str) none of the checked slices fails and the
+   loop bound S (len s) is never reached *)
+Theorem C20_split_total : forall s d, delim_ok d = true ->
+  split_off_front_matter s d = Ok (spec_split s d) \/
+  (utf8_valid s = false /\ exists site, split_off_front_matter s d = Panic site).
+Proof. exact split_ok_or_not_utf8. Qed.
 Print Assumptions C20_split_total.
 
-(* the slice checks of the model are real: off UTF-8 it does panic (so totality is not vacuous) *)
-Theorem C20_split_checks_not_vacuous : exists s d site, split_off_front_matter s d = Panic site.
+(* the Panic sites that remain in the model are the str slices `&s[start..end]` of line_at and the final
+   `&s[..end]` / `&s[end..]` (char-boundary checks; `bytes[end]` is guarded by `end < bytes.len()` and
+   `bytes[end..]` by `end <= len`).  They are real checks: off UTF-8 the model does panic, so totality above is
+   not vacuous; on a str they cannot fail because every offset the walk slices at is 0, the length, or the
+   position after an LF / CR byte (C20_split_total). *)
+Theorem C20_split_checks_not_vacuous :
+  exists s d site, delim_ok d = true /\ split_off_front_matter s d = Panic site.
 Proof. exact split_panics_off_boundary. Qed.
 Print Assumptions C20_split_checks_not_vacuous.
 
-(* FULL STATEMENT (false): the splitter is the line-based spec.  Kept visible. *)
-Definition C20_split_vs_spec_full_statement : Prop := split_vs_spec_full_statement.
+(* what is returned is a split of the (BOM-stripped) input; the front matter is the delimiter line (terminated),
+   body lines none of which is the delimiter, the delimiter line, and at most one blank line *)
+Theorem C20_split_sound : forall s d fm rest, delim_ok d = true ->
+  split_off_front_matter s d = Ok (Some (fm, rest)) ->
+  strip_bom s = fm ++ rest /\
+  exists e0 body ec bl,
+    terminated e0 = true /\ (forall l, In l body -> bytes_eqb (fst l) d = false) /\
+    (bl = [] \/ exists e, terminated e = true /\ bl = [([], e)]) /\
+    (terminated ec = false -> bl = []) /\
+    fm = join ((d, e0) :: body ++ (d, ec) :: bl).
+Proof. exact split_sound. Qed.
+Print Assumptions C20_split_sound.
 
-Theorem C20_split_vs_spec_refuted : ~ C20_split_vs_spec_full_statement.
-Proof. exact split_vs_spec_refuted. Qed.
-Print Assumptions C20_split_vs_spec_refuted.
-
-(* F9: a later CR LF closer beats an earlier LF closer: the front matter swallows body text *)
-Theorem C20_later_crlf_closer_refuted :
-  exists fm rest fm' rest',
-    split_off_front_matter w_f9 w_d = Ok (Some (fm, rest)) /\
-    spec_split w_f9 w_d = Some (fm', rest') /\
-    List.length fm' < List.length fm /\ fm_class w_f9 w_d = 3%N.
-Proof. exact split_vs_spec_later_crlf_refuted. Qed.
-Print Assumptions C20_later_crlf_closer_refuted.
-
-(* F10: a body line that starts with the delimiter hides a proper closer at end of input *)
-Theorem C20_prefix_line_hides_eof_closer_refuted :
-  split_off_front_matter w_f10 w_d = Ok None /\
-  spec_split w_f10 w_d = Some (w_f10, []) /\ fm_class w_f10 w_d = 4%N.
-Proof. exact split_vs_spec_prefix_line_refuted. Qed.
-Print Assumptions C20_prefix_line_hides_eof_closer_refuted.
-
-(* F11: CR-only line endings are not recognised *)
-Theorem C20_cr_only_refuted :
-  split_off_front_matter w_f11 w_d = Ok None /\
-  (exists fm rest, spec_split w_f11 w_d = Some (fm, rest)) /\ fm_class w_f11 w_d = 1%N.
-Proof. exact split_vs_spec_cr_only_refuted. Qed.
-Print Assumptions C20_cr_only_refuted.
-
-(* F25: an empty front matter (closer right after the opener) is not recognised *)
-Theorem C20_empty_front_matter_refuted :
-  split_off_front_matter w_f25 w_d = Ok None /\
-  (exists fm rest, spec_split w_f25 w_d = Some (fm, rest)) /\ fm_class w_f25 w_d = 2%N.
-Proof. exact split_vs_spec_empty_fm_refuted. Qed.
-Print Assumptions C20_empty_front_matter_refuted.
-
-(* PARTIAL (the weakest precondition found): for every well-formed delimiter (non-empty, no CR / LF) and
-   every input outside the four decidable classes of fm_class — no bare CR inside the front matter the
-   spec finds, front matter not empty, no later CR LF delimiter line after an LF closer, no
-   delimiter-prefixed body line before an unterminated closer — the splitter returns exactly the
-   line-based spec.  Each excluded class is necessary (the four refutations above). *)
-Theorem C20_split_spec_partial : forall s d r, delim_ok d = true -> fm_class s d = 0%N ->
-  split_off_front_matter s d = Ok r -> r = spec_split s d.
-Proof. exact split_spec_partial. Qed.
-Print Assumptions C20_split_spec_partial.
-
-Theorem C20_split_spec_partial_utf8 : forall s d, utf8_valid s = true -> utf8_valid d = true ->
-  delim_ok d = true -> fm_class s d = 0%N ->
-  split_off_front_matter s d = Ok (spec_split s d).
-Proof. exact split_spec_partial_utf8. Qed.
-Print Assumptions C20_split_spec_partial_utf8.
+(* the feed prologue advances line_number by count_line_endings(front matter): that is the number of
+   terminated lines of the front matter in the specification's reading (LF, CR LF, bare CR) *)
+Theorem C20_line_count : forall fm,
+  N.of_nat (count_line_endings fm) = spec_line_count fm.
+Proof. exact line_count_spec. Qed.
+Print Assumptions C20_line_count.
 
 (* the documentation's reading (front matter ends at the end of the closing line) and the accepted one
    differ by exactly one blank line moved from the rest to the front matter *)
@@ -94,9 +79,42 @@ Theorem C20_spec_absorb_only_moves_blank : forall s d fm rest,
 Proof. exact spec_absorb_only_moves_blank. Qed.
 Print Assumptions C20_spec_absorb_only_moves_blank.
 
-(* non-vacuity of the partial theorem: a CRLF document with a blank line after the closer *)
-Example C20_partial_example :
+(* ---- the four witnesses that refuted the full statement before the repair now split as specified *)
+
+(* F9 (class 3, later_crlf_closer): the FIRST closing line wins; the later CR LF delimiter line is body text
+   of the document, not of the front matter *)
+Example C20_later_crlf_closer_fixed :
+  split_off_front_matter w_f9 w_d = Ok (spec_split w_f9 w_d) /\
+  spec_split w_f9 w_d = Some (B "---" ++ [x0a] ++ B "a" ++ [x0a] ++ B "---" ++ [x0a],
+                              B "body" ++ [x0a] ++ B "---" ++ [x0d; x0a] ++ B "more") /\
+  fm_class w_f9 w_d = 3%N.
+Proof. repeat split; vm_compute; reflexivity. Qed.
+
+(* F10 (class 4, prefix_line_hides_eof_closer): a body line that starts with the delimiter does not hide the
+   closing line at end of input *)
+Example C20_prefix_line_hides_eof_closer_fixed :
+  split_off_front_matter w_f10 w_d = Ok (spec_split w_f10 w_d) /\
+  spec_split w_f10 w_d = Some (w_f10, []) /\ fm_class w_f10 w_d = 4%N.
+Proof. repeat split; vm_compute; reflexivity. Qed.
+
+(* F11 (class 1, lone_cr): CR-only line endings are line endings *)
+Example C20_cr_only_fixed :
+  split_off_front_matter w_f11 w_d = Ok (spec_split w_f11 w_d) /\
+  spec_split w_f11 w_d = Some (B "---" ++ [x0d] ++ B "fm" ++ [x0d] ++ B "---" ++ [x0d], B "text" ++ [x0d]) /\
+  count_line_endings (B "---" ++ [x0d] ++ B "fm" ++ [x0d] ++ B "---" ++ [x0d]) = 3 /\
+  fm_class w_f11 w_d = 1%N.
+Proof. repeat split; vm_compute; reflexivity. Qed.
+
+(* C20-a / F25 (class 2, empty_front_matter): the closing line may follow the opening line directly *)
+Example C20_empty_front_matter_fixed :
+  split_off_front_matter w_f25 w_d = Ok (spec_split w_f25 w_d) /\
+  spec_split w_f25 w_d = Some (B "---" ++ [x0a] ++ B "---" ++ [x0a], B "text" ++ [x0a]) /\
+  fm_class w_f25 w_d = 2%N.
+Proof. repeat split; vm_compute; reflexivity. Qed.
+
+(* non-vacuity: a CRLF document with a blank line after the closer *)
+Example C20_example :
   let s := B "---" ++ [x0d; x0a] ++ B "title: x" ++ [x0d; x0a] ++ B "---" ++ [x0d; x0a; x0d; x0a] ++ B "text" in
-  delim_ok w_d = true /\ fm_class s w_d = 0%N /\
+  utf8_valid s = true /\ delim_ok w_d = true /\
   exists fm, split_off_front_matter s w_d = Ok (Some (fm, B "text")) /\ spec_split s w_d = Some (fm, B "text").
-Proof. split; [reflexivity|]. split; [vm_compute; reflexivity|]. eexists. split; vm_compute; reflexivity. Qed.
+Proof. split; [reflexivity|]. split; [reflexivity|]. eexists. split; vm_compute; reflexivity. Qed.
